@@ -35,16 +35,65 @@ def sorted_term(t):
     return None
 
 
+def callable_body(facts, t):
+    """(body, index of its first explicit parameter) for a closure literal or a fn item with a body; (None, None) else"""
+    if isinstance(t, tuple) and t and t[0] == "agg" and t[1] == "closure":
+        b = facts.bodies.get(t[2])
+        return (b, 2) if b is not None else (None, None)
+    if isinstance(t, tuple) and t and t[0] == "fn":
+        b = facts.bodies.get(t[1])
+        return (b, 1) if b is not None else (None, None)
+    return (None, None)
+
+
+def parallel_table(facts, paths, v, K, time_field):
+    """is v a table holding exactly one entry per element of K - that element's position - in K's order?
+    form A: collect(map(iter(&K), |k| k.time));  form B: an empty Vec filled by `for k in &K { v.push(k.time) }`"""
+    if v[0] == "call" and v[1].endswith("Iterator::collect") and len(v[2]) == 1 and \
+            v[2][0][0] == "call" and v[2][0][1].endswith("Iterator::map") and \
+            v[2][0][2][0] == ("call", "core::slice::<impl [T]>::iter", (("&", K),)):
+        cb, first = callable_body(facts, v[2][0][2][1])
+        if cb is None:
+            return False
+        cps = [q for q in pse.Engine(facts).run(cb) if q.outcome == "return"]
+        return len(cps) == 1 and cps[0].ret in (("field", ("deref", ("param", first)), time_field),
+                                                ("field", ("param", first), time_field))
+    if v[0] == "loop" and v[2][0] == "local" and v[3][0] == "call" and \
+            (v[3][1].startswith("alloc::vec::Vec::<T>::new") or v[3][1].startswith("alloc::vec::Vec::<T>::with_capacity")):
+        hdr = v[1]
+        sources = (("call", "core::slice::<impl [T]>::iter", (("&", K),)),
+                   ("call", "<&'a alloc::vec::Vec<T, A> as core::iter::traits::collect::IntoIterator>::into_iter", (("&", K),)))
+        n_iter = 0
+        for p in paths:
+            pushes = [e for e in p.events if e["kind"] == "call" and e["descs"] and e["descs"][0] == ("&mut", v)]
+            nx = [e for e in p.events if e["kind"] == "call" and e["fn"].get("name") == "next" and e["descs"]
+                  and e["descs"][0][0] == "&mut" and e["descs"][0][1][0] == "loop" and e["descs"][0][1][1] == hdr]
+            if not nx:
+                if pushes:
+                    return False
+                continue
+            if nx[0]["descs"][0][1][3] not in sources:
+                return False
+            took = [c[1] for c in p.conds if c[0][0] == "discr" and c[0][1] == nx[0]["result"]]
+            if took == [1]:
+                n_iter += 1
+                item = ("field", ("variant", nx[0]["result"], "Some"), "0")
+                if p.outcome != "backedge" or len(pushes) != 1 or not pushes[0]["callee"].startswith("alloc::vec::Vec::<T, A>::push") \
+                        or pushes[0]["descs"][1] != ("field", ("deref", item), time_field):
+                    return False
+            elif pushes:
+                return False
+        return n_iter >= 1
+    return False
+
+
 def comparator_ok(ctx, facts, rule, callterm, site, tba_roles_kf):
     """R2: comparator compares a.<time> with b.<time> through a total order, ascending"""
     cmp_ = callterm[2][1] if len(callterm[2]) > 1 else None
-    if not (cmp_ and cmp_[0] == "agg" and cmp_[1] == "closure"):
-        ctx.ob(rule, "comparator", False, "sort comparator is not a closure literal: %s" % show(cmp_), site,
-               what="comparator-not-closure")
-        return
-    cb = facts.bodies.get(cmp_[2])
+    cb, first = callable_body(facts, cmp_)
     if cb is None:
-        ctx.lost(rule, "comparator-body", cmp_[2])
+        ctx.ob(rule, "comparator", False, "sort comparator is neither a closure literal nor a function of the workspace: %s"
+               % show(cmp_), site, what="comparator-not-closure")
         return
     eng = pse.Engine(facts)
     paths = eng.run(cb)
@@ -54,8 +103,8 @@ def comparator_ok(ctx, facts, rule, callterm, site, tba_roles_kf):
     detail = ""
     if ok:
         r = paths[0].ret
-        a = ("field", ("deref", ("param", 2)), tname)
-        b = ("field", ("deref", ("param", 3)), tname)
+        a = ("field", ("deref", ("param", first)), tname)
+        b = ("field", ("deref", ("param", first + 1)), tname)
         ok = r[0] == "call" and r[1] == "core::f32::<impl f32>::total_cmp" and r[2] == (("&", a), ("&", b))
         detail = show(r)
     ctx.ob(rule, "comparator[%s]" % cb["path"], ok,
@@ -104,21 +153,14 @@ def check_builder(ctx, facts, body, rule="R1", TBA=TBA, KEYFRAME=KEYFRAME):
             if name == roles["boundary"]:
                 # exactly one entry per keyframe, in keyframe order: collect(map(iter(&K), |k| k.<time>)) and nothing else
                 # (the per-property index maps have one entry per keyframe; the two must stay parallel)
-                okimg = v[0] == "call" and v[1].endswith("Iterator::collect") and len(v[2]) == 1 and \
-                    v[2][0][0] == "call" and v[2][0][1].endswith("Iterator::map") and \
-                    v[2][0][2][0] == ("call", "core::slice::<impl [T]>::iter", (("&", K),))
-                if okimg:
-                    clo = v[2][0][2][1]
-                    cb = facts.bodies.get(clo[2]) if clo[0] == "agg" and clo[1] == "closure" else None
-                    okimg = False
-                    if cb is not None:
-                        cps = [q for q in pse.Engine(facts).run(cb) if q.outcome == "return"]
-                        okimg = len(cps) == 1 and cps[0].ret == ("field", ("deref", ("param", 2)), kf_roles["time"])
+                okimg = parallel_table(facts, paths, v, K, kf_roles["time"])
                 ctx.ob(rule, inst + "/boundary-parallel-to-keyframes", okimg,
                        "boundary_times must hold exactly one entry per keyframe - the keyframe's position, in keyframe "
                        "order (collect(map(iter(&keyframes), |k| k.%s))); any filtering, de-duplication or later mutation "
                        "breaks the correspondence with the per-property index maps; it is %s" % (kf_roles["time"], show(v)[:300]),
                        body["span"], trace_of(p), what="boundary-table-not-parallel")
+                if v[0] == "loop" and okimg:
+                    derived, stale = True, False     # form B: filled from K inside the loop (shown by parallel_table)
                 ctx.ob(rule, inst + "/boundary-from-sorted", derived and not stale,
                        "boundary_times must be derived from the keyframes *after* they were sorted; it is %s"
                        % show(v), body["span"], trace_of(p),
@@ -159,7 +201,18 @@ def check_generated_build(ctx, facts, body, rule="R3"):
             continue
         ok = len(Ks) == 1
         K = next(iter(Ks))
-        ok = ok and K[0] == "&" and sorted_term(K[1]) is not None
+        # the source is either the sorted vector itself (conversion inlined) or the keyframes field of the value the
+        # conversion returns (conversion not inlined, e.g. because it contains a loop; R1 decides the conversion)
+        adt = facts.adt(TBA)
+        roles = field_roles(adt, {
+            "keyframes": lambda t: t.startswith("alloc::vec::Vec<") and "Keyframe" in t,
+            "boundary": lambda t: t == "alloc::vec::Vec<f32>",
+        })
+        ARGS = None
+        if ok and K[0] == "&" and K[1][0] == "field" and K[1][2] == roles["keyframes"] and K[1][1][0] == "call" and \
+                K[1][1][1].startswith("<%s<" % TBA) and K[1][1][1].endswith("::from"):
+            ARGS = K[1][1]
+        ok = ok and K[0] == "&" and (sorted_term(K[1]) is not None or ARGS is not None)
         ctx.ob(rule, inst + "/frames-from-sorted", ok,
                "every sub-timeline must be built from the one sorted keyframe vector; sources: %s"
                % [show(k) for k in Ks], body["span"], trace_of(p), what="frames-not-from-sorted-args")
@@ -168,10 +221,16 @@ def check_generated_build(ctx, facts, body, rule="R3"):
         Kv = K[1]
         # the boundary table stored in the timeline derives from the same vector
         ret = p.ret
-        bts = [v for x in subterms(ret) if x[0] == "agg" and x[1] == "adt" for nme, v in x[4]
-               if mentions(v, lambda y: y[0] == "call" and y[1] == "core::iter::traits::iterator::Iterator::collect")]
-        okb = bool(bts) and all(mentions(v, lambda y: y == Kv) and not _mentions_outside(v, sorted_term(Kv)[1], Kv)
-                                for v in bts)
+        if ARGS is not None:
+            want = ("field", ARGS, roles["boundary"])
+            bts = [v for x in subterms(ret) if x[0] == "agg" and x[1] == "adt" for nme, v in x[4] if v == want]
+            okb = len(bts) == 1
+        else:
+            bts = [v for x in subterms(ret) if x[0] == "agg" and x[1] == "adt" for nme, v in x[4]
+                   if mentions(v, lambda y: y[0] == "call" and y[1] == "core::iter::traits::iterator::Iterator::collect")
+                   or (v[0] == "loop" and v[2][0] == "local" and v[2][2] == "alloc::vec::Vec<f32>")]
+            okb = bool(bts) and all((mentions(v, lambda y: y == Kv) and not _mentions_outside(v, sorted_term(Kv)[1], Kv))
+                                    or v[0] == "loop" for v in bts)
         ctx.ob(rule, inst + "/boundary-same-args", okb,
                "the boundary table of the generated timeline must come from the same sorted arguments as its frames",
                body["span"], trace_of(p), what="boundary-from-other-source")
